@@ -227,6 +227,29 @@ func runC08(e *Env) {
 		}
 	}
 	e.R.AddPart(ev.Part{Name: "over-long-durations", Enumerated: "a rest or a chord of 279 620, 279 621, 300 000 and 5 000 000 beats (the delta between two events reaches 2^28 ticks at 279 620.27 beats): refused or well-formed", Executions: int64(len(longs)), Exhaustive: true})
+	if mm, err := newModel(e); err == nil {
+		wideFile, wideMax := wideChords(e, mm)
+		var wjobs []playCase
+		for _, n := range []int{1, 16, 17, 32, 33, wideMax} {
+			for _, N := range []int{1, 2, 3, 16, 17, 32, 33, 40, 256} {
+				for _, path := range []string{"lib", "cli"} {
+					c := playCase{Path: path, Cfg: writeCfg{Tracks: N, ChordFiles: []string{wideFile}}}
+					c.Insts = []refplay.Inst{
+						{Chord: &refplay.Chord{Degree: iv("1"), Symbol: fmt.Sprintf("w%d", n)}, Values: one()},
+						{Values: one()},
+						{Chord: &refplay.Chord{Degree: iv("2"), Symbol: fmt.Sprintf("Wide%d", (n+1)/2), Bass: ivp("5")}, Values: []timing.Frac{{Num: 1, Den: 2}}},
+					}
+					wjobs = append(wjobs, c)
+				}
+			}
+		}
+		mc.ParFor(len(wjobs), func(i int) {
+			c := wjobs[i]
+			c08Eval(e, &c, true)
+			e.R.Trace(1)
+		})
+		e.R.AddPart(ev.Part{Name: "wide-chords-x-tracks", Enumerated: fmt.Sprintf("user chords of 1, 16, 17, 32, 33 and %d tones x N in {1,2,3,16,17,32,33,40,256}, in-process and real binary", wideMax), Executions: int64(len(wjobs)), Exhaustive: true})
+	}
 	runLong(e, 16, func(c *playCase) {
 		for _, n := range []int{1, 3} {
 			cc := *c
